@@ -968,9 +968,11 @@ class EClass(EClassifier):
         elif notif.feature is EClass.eStructuralFeatures:
             if notif.kind is Kind.ADD:
                 setattr(self.python_class, notif.new.name, notif.new)
+                self._drop_shadowed_holders([notif.new.name])
             elif notif.kind is Kind.ADD_MANY:
                 for x in notif.new:
                     setattr(self.python_class, x.name, x)
+                self._drop_shadowed_holders([x.name for x in notif.new])
         elif notif.feature is EClass.name and notif.kind is Kind.SET:
             self.python_class.__name__ = notif.new
             self.__name__ = notif.new
@@ -990,6 +992,33 @@ class EClass(EClassifier):
                     # back, and then it has never been set on this instance
                     instance._isset.pop(value.feature, None)
                     # ... nor stay on record with what it referred to
+                    held = (value if isinstance(value, ECollection)
+                            else [value._value])
+                    for target in held:
+                        if hasattr(target, '_inverse_rels'):
+                            target._inverse_rels.discard((instance,
+                                                          value.feature))
+
+    def _drop_shadowed_holders(self, names):
+        # a feature that joins the class under the name of an inherited one
+        # takes the name over: an instance that had used the inherited feature
+        # must not answer with that holder (its value, its type) from now on
+        inherited = {f.name for x in self.eAllSuperTypes()
+                     for f in x.eStructuralFeatures}
+        names = [name for name in names if name in inherited]
+        if not names:
+            return
+        for instance in self.allInstances():
+            python_class = instance.eClass.python_class
+            for name in names:
+                value = instance.__dict__.get(name)
+                resolved = getattr(python_class, name, None)
+                if isinstance(value, (EValue, ECollection)) \
+                        and isinstance(resolved, EStructuralFeature) \
+                        and value.feature is not resolved:
+                    # (as for a holder whose feature left, above)
+                    del instance.__dict__[name]
+                    instance._isset.pop(value.feature, None)
                     held = (value if isinstance(value, ECollection)
                             else [value._value])
                     for target in held:
